@@ -658,6 +658,95 @@ Section Spec.
       rewrite Forall_forall in Hf. apply (Hf e' Hin). subst o. exact Hbelow.
   Qed.
 
+  (** ** document order: nothing is visited after something that lies later in
+      the document (arguments before body, slots in list order) *)
+  Definition in_doc_order (a b : event R) : Prop := ~ doc_before (ev_path b) (ev_path a).
+  Definition Pdoc (n : node) : Prop := forall p, ForallOrdPairs in_doc_order (postorder_events cb p n).
+
+  Lemma step_lt_irrefl : forall x, ~ step_lt x x.
+  Proof. intros [| | |]; cbn; lia. Qed.
+  Lemma step_lt_asym : forall x y, step_lt x y -> ~ step_lt y x.
+  Proof. intros [| | |] [| | |]; cbn; try lia; tauto. Qed.
+
+  Lemma not_doc_before_ext : forall (q d : path), ~ doc_before q (q ++ d).
+  Proof.
+    intros q d (c & x & y & e1 & e2 & H1 & H2 & Hlt). subst q.
+    rewrite <- app_assoc in H2. apply app_inv_head in H2. cbn in H2. injection H2 as H2 _. subst y.
+    exact (step_lt_irrefl _ Hlt).
+  Qed.
+
+  Lemma not_doc_before_cross : forall (p : path) x y d1 d2, step_lt x y ->
+    ~ doc_before (p ++ y :: d2) (p ++ x :: d1).
+  Proof.
+    intros p x y d1 d2 Hxy (c & x' & y' & e1 & e2 & H1 & H2 & Hlt).
+    apply app_eq_app in H1. destruct H1 as [k [[Hp Hk]|[Hc Hk]]].
+    - (* p = c ++ k *)
+      subst p. destruct k as [|z k'].
+      + cbn in Hk. injection Hk as Hk _. subst x'. rewrite app_nil_r in H2.
+        apply app_inv_head in H2. injection H2 as H2 _. subst y'.
+        exact (step_lt_asym _ _ Hxy Hlt).
+      + cbn in Hk. injection Hk as Hz _. subst z. rewrite <- app_assoc in H2. apply app_inv_head in H2.
+        cbn in H2. injection H2 as H2 _. subst y'. exact (step_lt_irrefl _ Hlt).
+    - (* c = p ++ k *)
+      subst c. destruct k as [|z k'].
+      + cbn in Hk. injection Hk as Hk _. subst x'. rewrite app_nil_r in H2.
+        apply app_inv_head in H2. injection H2 as H2 _. subst y'.
+        exact (step_lt_asym _ _ Hxy Hlt).
+      + cbn in Hk. injection Hk as Hz _. subst z. rewrite <- app_assoc in H2. apply app_inv_head in H2.
+        cbn in H2. injection H2 as H2 _. subst y. exact (step_lt_irrefl _ Hxy).
+  Qed.
+
+  Lemma slot_events_doc : forall l, Forall (Pslot Pdoc) l -> forall p mk i,
+    (forall a b, a < b -> step_lt (mk a) (mk b)) ->
+    ForallOrdPairs in_doc_order (slot_events (postorder_events cb) p mk i l).
+  Proof.
+    induction 1 as [|s r Hs Hr IH]; intros p mk i Hmono; [constructor|]. destruct s as [c|].
+    - rewrite slot_events_some. apply FOP_app; [apply Hs | now apply IH |].
+      intros a b Ha Hb. destruct (postorder_path_prefix _ _ _ Ha) as [d1 D1].
+      destruct (slot_events_shape _ _ _ _ _ Hb) as (j & d2 & Hj & D2).
+      unfold in_doc_order. rewrite D1, D2, app_cons_assoc. apply not_doc_before_cross.
+      apply Hmono. lia.
+    - rewrite slot_events_none. now apply IH.
+  Qed.
+  Lemma body_events_doc : forall b, Pbody Pdoc b -> forall p,
+    ForallOrdPairs in_doc_order (body_events (postorder_events cb) p b).
+  Proof.
+    intros [c|] Hb p; [|constructor]. destruct c; try constructor.
+    destruct Hb as [_ Hl]. apply slot_events_doc; [exact Hl | intros a b Hab; exact Hab].
+  Qed.
+  Lemma args_events_doc : forall a, Pargs Pdoc a -> forall p,
+    ForallOrdPairs in_doc_order (args_events cb (postorder_events cb) p a).
+  Proof.
+    intros [[sp l]|] Ha p; [|constructor]. cbn [args_events].
+    apply FOP_app; [apply slot_events_doc; [exact Ha | intros a b Hab; exact Hab] | repeat constructor |].
+    intros a b Hin [Hb|[]]. subst b. destruct (slot_events_shape _ _ _ _ _ Hin) as (j & d & _ & D).
+    unfold in_doc_order. cbn [ev_path]. rewrite D. apply not_doc_before_ext.
+  Qed.
+
+  Lemma postorder_doc : forall n, Pdoc n.
+  Proof.
+    assert (Hself : forall (l : list (event R)) q k s pl,
+              ForallOrdPairs in_doc_order l -> (forall e, In e l -> exists d, ev_path e = q ++ d) ->
+              ForallOrdPairs in_doc_order (l ++ [Ev q k s pl])).
+    { intros l q k s pl Hl Hp. apply FOP_app; [exact Hl | repeat constructor |].
+      intros a b Ha [Hb|[]]. subst b. destruct (Hp a Ha) as [d D].
+      unfold in_doc_order. cbn [ev_path]. rewrite D. apply not_doc_before_ext. }
+    induction n using node_ind'; intros q;
+      (assert (Hpre := postorder_path_prefix);
+       match goal with |- ForallOrdPairs _ (postorder_events cb q ?t) =>
+         specialize (Hpre t q); cbn [postorder_events] in Hpre |- * end;
+       apply Hself; [| intros e0 He0; apply Hpre, in_or_app; now left]); try constructor.
+    - now apply body_events_doc.
+    - now apply args_events_doc.
+    - apply FOP_app; [now apply args_events_doc | now apply body_events_doc |].
+      intros x y Hx Hy. destruct (args_events_shape _ _ _ Hx) as (d1 & D1).
+      destruct (body_events_shape _ _ _ Hy) as (j & d2 & D2).
+      unfold in_doc_order. rewrite D1, D2. apply not_doc_before_cross. exact I.
+    - now apply args_events_doc.
+    - now apply body_events_doc.
+    - apply slot_events_doc; [exact H | intros a b Hab; exact Hab].
+  Qed.
+
 End Spec.
 
 (** * Slot-wise reading of the lists handed to a parent *)
@@ -721,6 +810,10 @@ Section Final.
     forall o, In o (occurrences [] t) -> strictly_below (ev_path e) (fst o) ->
     exists e', In e' l1 /\ ev_occ e' = o.
   Proof. rewrite (visit_events_postorder cb t Hwf). apply postorder_descendants_earlier. Qed.
+
+  Lemma visit_document_order :
+    ForallOrdPairs (fun a b : event R => ~ doc_before (ev_path b) (ev_path a)) (events (visit cb t)).
+  Proof. rewrite (visit_events_postorder cb t Hwf). apply postorder_doc. Qed.
 
   Lemma visit_returns_root_result : outcome (visit cb t) = VOk (result cb [] t).
   Proof. now rewrite (visit_is_postorder cb t Hwf). Qed.
